@@ -115,3 +115,98 @@ def lemma(ss, name, cond, timeout=20.0):
     rec = ss.prove(name, facts(), T.bnot(t), timeout=timeout, key="lemma", describe="derived fact used to resolve a guard in the code")
     if rec["status"] == "unsat":
         S.ctx().fact(t)
+
+
+def prove_close_poly(ss, name, a, b, eps, bound, key=None, payload=None, describe=None, timeout=60.0, limit=40000):
+    """Obligation |a - b| <= eps for every assignment of the variables in [-bound, bound].
+
+    a - b is expanded into a polynomial; every non-constant monomial is replaced by a fresh
+    real variable ranging over [-bound^deg, bound^deg] ([0, bound^deg] for monomials that are
+    squares).  The abstraction over-approximates the reachable values, so 'unsat' of the linear
+    query proves the bound; a 'sat' answer of the abstraction is only kept when a concrete
+    assignment of the original variables (searched by evaluation at corners and seeded random
+    points, then replayed on the real code by the harness) violates the bound, otherwise the
+    full non-linear query decides."""
+    import random
+
+    d = T.sub(a, b)
+    memo = {}
+    p = T._poly_of(d, limit, memo)
+    atoms = memo.get("atoms", {})
+    if p is None or any(t.op != "var" for t in atoms.values()):
+        return ss.prove(name, facts(), far(a, b, eps), key=key, payload=payload, describe=describe, timeout=timeout)
+    B = Fraction(bound)
+    # scaled monomials t_k = c_k * m_k range over [-|c_k| B^deg, |c_k| B^deg] ([0, .] or [., 0] for squares);
+    # the sum is decided chunk by chunk (|sum over chunk| <= eps / #chunks), each a small linear query
+    items = []
+    for k, c in sorted(p.items()):
+        if k == ():
+            continue
+        deg = sum(e for _a, e in k)
+        h = abs(c) * B**deg
+        if all(e % 2 == 0 for _a, e in k):
+            lo, hi = (Fraction(0), h) if c > 0 else (-h, Fraction(0))
+        else:
+            lo, hi = -h, h
+        items.append((lo, hi))
+    c0 = p.get((), Fraction(0))
+    chunk = 250
+    groups = [items[i : i + chunk] for i in range(0, len(items), chunk)] or [[]]
+    e_g = Fraction(eps) / len(groups)
+    status, secs, reason = "unsat", 0.0, None
+    for gi, grp in enumerate(groups):
+        F = []
+        ts = [T.const(c0, "R")] if gi == 0 else []
+        for j, (lo, hi) in enumerate(grp):
+            t = T.fresh("mono%d_%d_" % (gi, j))
+            F += [T.ge(t, T.const(lo, "R")), T.le(t, T.const(hi, "R"))]
+            ts.append(t)
+        ssum = T.add(*ts) if ts else T.ZERO
+        e = T.const(e_g, "R")
+        r = ss.prove("%s.chunk%d" % (name, gi) if len(groups) > 1 else name, F, T.bor(T.gt(ssum, e), T.lt(ssum, T.neg(e))), key=key, describe=describe, timeout=timeout)
+        r["how"] = "monomial abstraction (%d of %d monomials, linear real arithmetic)" % (len(grp), len(items))
+        secs += r.get("seconds", 0.0)
+        if r["status"] != "unsat":
+            status, reason = r["status"], r.get("reason")
+            r.pop("model", None)
+            break
+    if len(groups) > 1:
+        rec = ss._rec(kind="obligation", name=name, key=key or name, status=status, seconds=round(secs, 4), describe=describe)
+        rec["how"] = "monomial abstraction: %d monomials in %d chunks, each |chunk sum| <= eps/%d by linear real arithmetic" % (len(items), len(groups), len(groups))
+        if reason:
+            rec["reason"] = reason
+        if status == "sat":
+            # the chunk record must not be replayed on its own: the combined record carries the verdict
+            r["status"] = "unknown-chunk"
+            r["kind"] = "note"
+    else:
+        rec = r
+    if rec["status"] != "sat":
+        return rec
+    # concrete witness in the original variables
+    vs = list(atoms.values())
+    rnd = random.Random(11)
+    found = None
+    for trial in range(400):
+        if trial < 200:
+            env = {v: (B if rnd.random() < 0.5 else -B) for v in vs}
+        else:
+            env = {v: Fraction(rnd.uniform(-float(B), float(B))).limit_denominator(1000) for v in vs}
+        try:
+            val = T.evaluate([d], env, exact=True)[0]
+        except Exception:
+            continue
+        if abs(val) > eps:
+            found = env
+            break
+    rec.pop("model", None)
+    if found is None:
+        r2 = ss.prove(name + ".nonlinear", [T.ge(v, T.const(-B, "R")) for v in vs] + [T.le(v, T.const(B, "R")) for v in vs], far(a, b, eps), key=key, payload=payload, describe=describe, timeout=timeout)
+        rec["status"] = "unsat" if r2["status"] == "unsat" else "unknown"
+        rec["reason"] = "abstraction satisfiable; decided by the non-linear query" if r2["status"] != "unknown" else "abstraction satisfiable, no concrete witness found, non-linear query undecided"
+        return rec
+    model = {v.args[0]: float(x) for v, x in found.items()}
+    rec["model"] = model
+    if payload is not None:
+        rec["payload"] = payload(model)
+    return rec
